@@ -95,6 +95,10 @@ pub struct ShutdownCase {
     /// not wait for the future to be dropped
     #[serde(default)]
     pub hold_server_future: bool,
+    /// the executor is busy: every connection task is first polled this many ms after it was
+    /// handed over (the signal can find a connection that was accepted but has never run)
+    #[serde(default)]
+    pub exec_delay_ms: u64,
 }
 
 #[derive(Clone, Default)]
@@ -482,7 +486,7 @@ impl Scenario for ShutdownSim {
         }
         let instant_request = if !tls && proto != ServerProto::H2 { *Rng::keyed(seed, "shutdown/instant").pick(&[0u8, 0, 1, 2]) } else { 0 };
         let hold_server_future = Rng::keyed(seed, "shutdown/hold").chance(1, 3);
-        ShutdownCase { seed, proto, conns, signal_at_ms: r.below(60), io_faulty: r.chance(1, 3), tls, native_builder: r.bool(), instant_request, hold_server_future }
+        ShutdownCase { seed, proto, conns, signal_at_ms: r.below(60), io_faulty: r.chance(1, 3), tls, native_builder: r.bool(), instant_request, hold_server_future, exec_delay_ms: *Rng::keyed(seed, "shutdown/exec-delay").weighted(&[(3, 0u64), (1, 1), (1, 4), (1, 15)]) }
     }
 
     fn execute(&self, case: &ShutdownCase) -> Outcome {
@@ -511,7 +515,7 @@ impl Scenario for ShutdownSim {
                 let ctx = HandlerCtx { net: net.clone(), log: log.clone(), plans: Arc::new(plans), origin: "http://srv.test".into() };
                 let acc = net.listen("http://srv.test");
                 let (tx, rx) = tokio::sync::oneshot::channel();
-                let exec = SimExecutor::default();
+                let exec = SimExecutor { start_delay_ms: case.exec_delay_ms, ..SimExecutor::default() };
                 let t0 = tokio::time::Instant::now();
                 let net_s = net.clone();
                 #[allow(clippy::type_complexity)]
@@ -959,6 +963,11 @@ impl Scenario for ShutdownSim {
                     v.push(c);
                 }
             }
+        }
+        if case.exec_delay_ms > 0 {
+            let mut c = case.clone();
+            c.exec_delay_ms = 0;
+            v.push(c);
         }
         for t in [0u64, case.signal_at_ms / 2] {
             if t < case.signal_at_ms {
